@@ -553,6 +553,9 @@ class Component(CaselessDict):
         if not isinstance(other, Component):
             # None, strings, plain mappings, ... are never equal to a component
             return False
+        if self.name != other.name:
+            # a VEVENT is not a VTODO, even if both are empty
+            return False
         if len(self.subcomponents) != len(other.subcomponents):
             return False
 
@@ -564,9 +567,15 @@ class Component(CaselessDict):
         # neither there's a natural key we can sort the subcomponents by nor
         # are the subcomponent types hashable, so  we cant put them in a set to
         # check for set equivalence. We have to iterate over the subcomponents
-        # and look for each of them in the list.
+        # and look for each of them in the list. Each subcomponent of other
+        # can only be matched once, so that [a, a] does not equal [a, b].
+        unmatched = list(other.subcomponents)
         for subcomponent in self.subcomponents:
-            if subcomponent not in other.subcomponents:
+            for index, candidate in enumerate(unmatched):
+                if subcomponent == candidate:
+                    del unmatched[index]
+                    break
+            else:
                 return False
 
         return True
